@@ -24,7 +24,8 @@ PARAMS = [("=", "#", 0), (" \t", "#;", 0), (":=", ";", 1), ("=", "#", 2), ("", "
 def env_case(i, data, delim, comment, mode):
     R = ROOT + "/e%d" % (i % 16)
     p = R + "/etc/p.conf"
-    return ["file %s %s" % (hx(p), hx(data)), "envelope %s %s %s %d %s" % (hx(p), hx(delim), hx(comment), mode, hx(R + "/out"))]
+    big = ["watchdog 300"] if len(data) > 20000 else []      # thousands of entries through 17 getters each and 4 merges: quadratic
+    return big + ["file %s %s" % (hx(p), hx(data)), "envelope %s %s %s %d %s" % (hx(p), hx(delim), hx(comment), mode, hx(R + "/out"))] + (["watchdog 20"] if big else [])
 
 
 def run_env(exe, inputs, verdict, pid="C04"):
@@ -32,13 +33,19 @@ def run_env(exe, inputs, verdict, pid="C04"):
     # several inputs per driver case to keep process/IO overhead low; crash isolation by re-running singly
     batch = 200
     cases = []
-    for b in range(0, len(inputs), batch):
-        lines = []
-        for j, (data, d, c, m) in enumerate(inputs[b:b + batch]):
-            lines.append("echo %d" % (b + j))
-            lines += env_case(b + j, data, d, c, m)
-        cases.append((b, lines))
-    res = core.run_cases(exe, cases, per_case_timeout=120)
+    members = {}
+    cur, curbytes = [], 0
+    for k, (data, d, c, m) in enumerate(inputs):
+        # a batch is closed after 200 inputs or ~60 kB of content (big inputs take long: few of them per process)
+        if cur and (len(cur) >= batch or curbytes + len(data) > 60000):
+            cases.append((cur[0], cur)); cur, curbytes = [], 0
+        cur.append(k); curbytes += len(data)
+    if cur:
+        cases.append((cur[0], cur))
+    for b, ks in cases:
+        members[b] = ks
+    cases = [(b, [ln for k in ks for ln in (["echo %d" % k] + env_case(k, *inputs[k]))]) for b, ks in cases]
+    res = core.run_cases(exe, cases, per_case_timeout=1300)
     classes = {}
     n_ok = n_parse = 0
     redo = []
@@ -60,12 +67,12 @@ def run_env(exe, inputs, verdict, pid="C04"):
                     n_parse += 1
         if out is None or out["crash"]:
             # the input after the last completed one is the culprit; run the rest one by one
-            rest = [k for k in range(b, min(b + batch, len(inputs))) if k not in done]
+            rest = [k for k in members[b] if k not in done]
             redo += rest
     crashes = 0
     if redo:
         single = [(k, env_case(k, *inputs[k])) for k in redo]
-        r2 = core.run_cases(exe, single, per_case_timeout=30)
+        r2 = core.run_cases(exe, single, per_case_timeout=400)
         for k in redo:
             out = r2.get(k)
             data, d, c, m = inputs[k]
